@@ -230,6 +230,26 @@ def _param_sources(init, st: ast.Assign) -> Set[str]:
     return set(srcs) & set(init.params)
 
 
+def _plain_json_reads(ck: Checker, prog: Program):
+    """What a settings file holds is what is loaded: json.load / json.loads are called without parse_int / parse_float / parse_constant /
+    object_hook / object_pairs_hook / cls (an integer read back as a float is refused as an FFT length; a hook may drop or rename keys)."""
+    n = 0
+    for f in prog.funcs.values():
+        if f.module.name not in ("settings", "object_io") or f.kind == "lambda":
+            continue
+        for c in own_nodes(f.node):
+            if isinstance(c, ast.Call) and dotted(c.func) in ("json.load", "json.loads"):
+                n += 1
+                extra = [k.arg for k in c.keywords if k.arg in ("parse_int", "parse_float", "parse_constant", "object_hook", "object_pairs_hook", "cls") or k.arg is None]
+                if extra:
+                    ck.violation("C15.R1", f.qualname, f"{dotted(c.func)}({', '.join(str(e) for e in extra)}=...)",
+                                 f"`{norm_key(c, 80)}` converts what the file holds while reading ({extra[0]}): the loaded object is not the saved one "
+                                 f"(an integer FFT length comes back as a float and is refused)", loc=f.loc(c))
+                else:
+                    ck.ok("C15.R1", f.qualname, f"{dotted(c.func)} reads the file as it is", nontrivial=False)
+    ck.floor("C15.R1", n, 2, "json reads of settings")
+
+
 def run(ck: Checker, prog: Program, tier: str):
     eng = engine(prog)
     classes = _settings_classes(prog)
@@ -237,6 +257,7 @@ def run(ck: Checker, prog: Program, tier: str):
     public = prog.module("settings").all_names or []
     ck.floor("C15.R3", len(public), 8, "public settings classes in __all__")
 
+    ck.guard(_plain_json_reads, ck, prog)
     flagged = set()
     check_constructors(ck, prog, classes, flagged)
     ck.guard(_r3, ck, prog, public)
